@@ -631,7 +631,8 @@ func VerifC26Malformed(h *verifrt.H) {
 	var rerr error
 	isNil := false
 	check := func(r any, nilResp bool, e error) { resp, isNil, rerr = r, nilResp, e }
-	switch h.Choose("handler", h.Param("handlers", 12)) {
+	batchRejected, batchSet := false, false
+	switch h.Choose("handler", h.Param("handlers", 13)) {
 	case 0:
 		r, e := g.Get(ctx, &hydrapb.GetRequest{Swamps: []*hydrapb.GetSwamp{{SwampName: sn, Keys: keys}}})
 		check(r, r == nil, e)
@@ -674,6 +675,17 @@ func VerifC26Malformed(h *verifrt.H) {
 	case 11:
 		r, e := g.Destroy(ctx, &hydrapb.DestroyRequest{SwampName: sn})
 		check(r, r == nil, e)
+	case 12: // a Set batch over two swamps: a well-formed entry first, then the malformed one (bad name and/or nil KeyValues)
+		two := int64(2)
+		var kvs []*hydrapb.KeyValuePair
+		for _, k := range keys {
+			kvs = append(kvs, &hydrapb.KeyValuePair{Key: k, Int64Val: &one})
+		}
+		r, e := g.Set(ctx, &hydrapb.SetRequest{Swamps: []*hydrapb.SwampRequest{
+			{SwampName: gwSwamp, CreateIfNotExist: true, Overwrite: true, KeyValues: []*hydrapb.KeyValuePair{{Key: "a", Int64Val: &two}, {Key: "b", Int64Val: &two}}},
+			{SwampName: sn, CreateIfNotExist: true, Overwrite: true, KeyValues: kvs}}})
+		check(r, r == nil, e)
+		batchRejected, batchSet = e != nil, true
 	}
 	_ = resp
 	h.Assert(!isNil || rerr != nil, "handler-returns-error-or-response")
@@ -681,8 +693,13 @@ func VerifC26Malformed(h *verifrt.H) {
 	h.Assert(!g.ZeusInterface.GetSafeops().SystemLocked(), "system-lock-released")
 	// the untouched record is still there and the server still works
 	gr, gerr := g.Get(ctx, &hydrapb.GetRequest{Swamps: []*hydrapb.GetSwamp{{SwampName: gwSwamp, Keys: []string{"a"}}}})
-	touched := sn == gwSwamp
-	if !touched {
+	touched := sn == gwSwamp || batchSet
+	if batchRejected {
+		// a request that is rejected as a whole has written nothing: not the entries in front of the malformed one either
+		h.Assert(gerr == nil && gr != nil && len(gr.Swamps) == 1 && len(gr.Swamps[0].Treasures) == 1 && gr.Swamps[0].Treasures[0].IsExist && gr.Swamps[0].Treasures[0].GetInt64Val() == 1, "rejected-batch-left-existing-record-unchanged")
+		br, berr := g.IsKeyExist(ctx, &hydrapb.IsKeyExistRequest{SwampName: gwSwamp, Key: "b"})
+		h.Assert(berr != nil || br != nil && !br.IsExist, "rejected-batch-created-nothing")
+	} else if !touched {
 		h.Assert(gerr == nil && gr != nil && len(gr.Swamps) == 1 && len(gr.Swamps[0].Treasures) == 1 && gr.Swamps[0].Treasures[0].IsExist && gr.Swamps[0].Treasures[0].GetInt64Val() == 1, "existing-data-intact-and-server-usable")
 	} else {
 		h.Assert(gerr != nil || gr != nil, "server-usable-afterwards")
